@@ -206,6 +206,9 @@ func (e *Engine) verifyFunc(key string, against *FuncContract, prefix string) (r
 		ac := &fc.Anchors[i]
 		switch ac.At {
 		case "return":
+			if ac.K == -1 {
+				ac.K = nret
+			}
 			if ac.K < 1 || ac.K > nret {
 				x.fail("anchor [%s] of %s: there is no return %d (the function has %d)", ac.Clause.Label, key, ac.K, nret)
 			}
